@@ -112,9 +112,9 @@ def work(run, names):
             continue
         run.count("contexts")
         cats = categories_of(ctx)
-        n = 4 if run.tier == "quick" else 40
+        n = 4 if run.tier == "quick" else 160
         if cname == "apps.master_context":
-            n = 3 if run.tier == "quick" else 25
+            n = 3 if run.tier == "quick" else 60
         for s in schemes:
             if not H.usable(s):
                 run.note(f"{cname}: scheme {s} has no backend on this host - not exercised")
